@@ -1630,3 +1630,8 @@ fn find_used_blobs<S>(
 
     Ok(ids)
 }
+
+// verification hook (guard: cfg(kani), set only by the Kani compiler): harnesses live in /verif/kani
+#[cfg(kani)]
+#[path = "/verif/kani/prune.rs"]
+mod verif_kani;
